@@ -263,7 +263,7 @@ func overlayDirtyRules(c *Ctx, rule string) {
 		var marks []ssa.Instruction
 		for _, b := range blocksIP(fn) {
 			for _, in := range b.Instrs {
-				if mu, ok := in.(*ssa.MapUpdate); ok && strings.HasSuffix(vstr(mu.Map), "param:o.dirty") && vstr(mu.Value) == "true" {
+				if mu, ok := in.(*ssa.MapUpdate); ok && strings.HasSuffix(vstr(mu.Map), "param:o.dirty") && vstr(mu.Value) != "false" { // a set: bool true or struct{}{}
 					marks = append(marks, in)
 				}
 			}
@@ -297,7 +297,7 @@ func overlayDirtyRules(c *Ctx, rule string) {
 			for _, in := range b.Instrs {
 				switch x := in.(type) {
 				case *ssa.Store:
-					if vstr(x.Addr) == "param:o.dirty" && strings.HasPrefix(vstr(x.Val), "make(map[string]bool)") {
+					if vstr(x.Addr) == "param:o.dirty" && strings.HasPrefix(vstr(x.Val), "make(map[string]") {
 						resets = append(resets, in)
 					}
 				case ssa.CallInstruction:
@@ -324,7 +324,7 @@ func overlayDirtyRules(c *Ctx, rule string) {
 				}
 			}
 		}
-		c.GuardedByAny(rule, fn, "!dirty[inner.Key()] (or inner exhausted)", []string{`^!\*\*param:it\.tree\.dirty\[string\(\*param:it\.inner\.Key\(\)\)\]$`, `^!\*param:it\.inner\.Valid\(\)$`}, Ev{Name: "it.key/value = inner key/value", Fn: fn, Ins: adopt}, "an inner key that the overlay overwrote or removed must never be yielded with the inner tree's value")
+		c.GuardedByAny(rule, fn, "!dirty[inner.Key()] (or inner exhausted)", []string{`^!\*\*param:it\.tree\.dirty\[string\(\*param:it\.inner\.Key\(\)\)\](#1)?$`, `^!\*param:it\.inner\.Valid\(\)$`}, Ev{Name: "it.key/value = inner key/value", Fn: fn, Ins: adopt}, "an inner key that the overlay overwrote or removed must never be yielded with the inner tree's value")
 	}
 
 }
